@@ -132,6 +132,7 @@ func c15Tuples(c *Check) []c15Tuple {
 	// matches that are preceded by a partial match of the same separator (a scan that does not back up after a
 	// failed partial match misses them), matches at the very end, several candidates; in both tiers
 	partial := [][2]string{{"aaab", "aab"}, {"bbba", "bba"}, {"ababac", "abac"}, {"a   b", "  b"}, {"aabaab", "aab"}, {"abababb", "ababb"}, {"aaaa", "aa"}, {"aaaab", "aab"}, {"abaabaaab", "aaab"}, {"xaxaxb", "axb"},
+		{"a\rb\r", "\r"}, {"ab\r", "\r"}, {"\ta\tb", "\t"}, {"l1\nl2\n", "\n"}, {"a\r\nb", "\r\n"}, {"\r", "\r"}, {"x\vy\fz", "\f"},
 		{"aab", "ab"}, {"aaab aab", "aab"}, {"ab ab  ab", " ab"}, {"abcabcabd", "abcabd"}, {"a a  a", " a"}, {"bbbb", "bbb"}, {"abab", "bab"}, {"baab", "ab"}, {"b a ", " "}, {"abb", "b"}}
 	for _, f := range two {
 		for _, pm := range partial {
@@ -208,7 +209,7 @@ func c15Tuples(c *Check) []c15Tuple {
 }
 
 func checkC15(c *Check) {
-	c.Rule = "differential against Go's strings package: argument tuples over all strings of length 0-3 on {a, b, blank} plus 12 longer strings with overlaps and 20 pairs in which a partial match of the separator precedes the real one, counts -2..4, slices of up to 4 elements with 4 separators, whitespace mixes; each tuple is compiled into a call of the bundled library and executed under bash (40 tuples per script, each result line tagged with its tuple index; an aborting script is re-run tuple by tuple); every tuple runs twice, once in a script of one function and once in a seeded shuffle that mixes functions in one script; a mixed-script mismatch is reported as it stands (the script is the replay); the quick tier always contains the empty-operand corners. Non-trivial = every tuple; distinct = function + arguments"
+	c.Rule = "differential against Go's strings package: argument tuples over all strings of length 0-3 on {a, b, blank} plus 12 longer strings with overlaps and 20 pairs in which a partial match of the separator precedes the real one, counts -2..4, slices of up to 4 elements with 4 separators, whitespace mixes; each tuple is compiled into a call of the bundled library and executed under bash (40 tuples per script, each result line tagged with its tuple index; an aborting script is re-run tuple by tuple); every tuple runs twice, once in a script of one function and once in a seeded shuffle that mixes functions in one script; a mixed-script mismatch is reported as it stands (the script is the replay); 15 more scripts call each function from inside nested loops of the program over 10 x 7 arguments (and counts -2..3); the quick tier always contains the empty-operand corners. Non-trivial = every tuple; distinct = function + arguments"
 	c.Assumptions = []string{"Go's strings package is the oracle", "ASCII arguments", "Repeat with a negative count is excluded (Go panics)"}
 	runProbes(c, bashProbeJudge)
 	tuples := c15Tuples(c)
@@ -326,4 +327,96 @@ func checkC15(c *Check) {
 		}
 	})
 	c.Extra["scripts"] = len(jobs)
+	// the library called from inside the program's own loops (its loops and the caller's run interleaved): one
+	// script per function, two nested range loops over argument slices, a counting loop for the int argument
+	{
+		A := []string{"", "a", "ab", "aab", "abab", "a b a", " ", "aaab", "ba ba", "b"}
+		B := []string{"", "a", "b", "ab", "aab", " ", "ba"}
+		lit := func(l []string) string {
+			q2 := make([]string, len(l))
+			for i, x := range l {
+				q2[i] = q(x)
+			}
+			return "[]string{" + strings.Join(q2, ", ") + "}"
+		}
+		type lf struct {
+			name string
+			call string                              // TypeShell expression over s, u (and n)
+			exp  func(s, u string, n int) string     // what Go gives, rendered like the script prints it
+			ints bool
+		}
+		fs := []lf{
+			{"Index", "strings.Index(s, u)", func(s, u string, n int) string { return fmt.Sprint(strings.Index(s, u)) }, false},
+			{"Contains", "strings.Contains(s, u)", func(s, u string, n int) string { return b01(strings.Contains(s, u)) }, false},
+			{"Count", "strings.Count(s, u)", func(s, u string, n int) string { return fmt.Sprint(strings.Count(s, u)) }, false},
+			{"HasPrefix", "strings.HasPrefix(s, u)", func(s, u string, n int) string { return b01(strings.HasPrefix(s, u)) }, false},
+			{"HasSuffix", "strings.HasSuffix(s, u)", func(s, u string, n int) string { return b01(strings.HasSuffix(s, u)) }, false},
+			{"TrimLeft", "\"[\" + strings.TrimLeft(s, u) + \"]\"", func(s, u string, n int) string { return "[" + strings.TrimLeft(s, u) + "]" }, false},
+			{"TrimRight", "\"[\" + strings.TrimRight(s, u) + \"]\"", func(s, u string, n int) string { return "[" + strings.TrimRight(s, u) + "]" }, false},
+			{"Trim", "\"[\" + strings.Trim(s, u) + \"]\"", func(s, u string, n int) string { return "[" + strings.Trim(s, u) + "]" }, false},
+			{"TrimPrefix", "\"[\" + strings.TrimPrefix(s, u) + \"]\"", func(s, u string, n int) string { return "[" + strings.TrimPrefix(s, u) + "]" }, false},
+			{"TrimSuffix", "\"[\" + strings.TrimSuffix(s, u) + \"]\"", func(s, u string, n int) string { return "[" + strings.TrimSuffix(s, u) + "]" }, false},
+			{"TrimSpace", "\"[\" + strings.TrimSpace(s + u) + \"]\"", func(s, u string, n int) string { return "[" + strings.TrimSpace(s+u) + "]" }, false},
+			{"ReplaceAll", "\"[\" + strings.ReplaceAll(s, u, \"X\") + \"]\"", func(s, u string, n int) string { return "[" + strings.ReplaceAll(s, u, "X") + "]" }, false},
+			{"SplitJoin", "\"[\" + strings.Join(strings.Split(s, u), \"|\") + \"]\"", func(s, u string, n int) string { return "[" + strings.Join(strings.Split(s, u), "|") + "]" }, false},
+			{"Replace", "\"[\" + strings.Replace(s, u, \"X\", n) + \"]\"", func(s, u string, n int) string { return "[" + strings.Replace(s, u, "X", n) + "]" }, true},
+			{"Repeat", "\"[\" + strings.Repeat(u, n + 2) + \"]\"", func(s, u string, n int) string { return "[" + strings.Repeat(u, n+2) + "]" }, true},
+		}
+		parallelDo(len(fs), 16, func(fi int) {
+			f := fs[fi]
+			var src, exp strings.Builder
+			src.WriteString("import \"strings\"\n\n")
+			fmt.Fprintf(&src, "aa := %s\nbb := %s\n", lit(A), lit(B))
+			if f.ints {
+				src.WriteString("for i, s := range aa {\n\tfor j, u := range bb {\n\t\tfor n := -2; n <= 3; n++ {\n\t\t\tprint(i, j, n, " + f.call + ")\n\t\t}\n\t}\n}\nprint(\"end\")\n")
+			} else {
+				src.WriteString("for i, s := range aa {\n\tfor j := 0; j < len(bb); j++ {\n\t\tu := bb[j]\n\t\tprint(i, j, " + f.call + ")\n\t}\n}\nprint(\"end\")\n")
+			}
+			for i, s1 := range A {
+				for j, u1 := range B {
+					if f.ints {
+						for n := -2; n <= 3; n++ {
+							fmt.Fprintf(&exp, "%d %d %d %s\n", i, j, n, f.exp(s1, u1, n))
+						}
+					} else {
+						fmt.Fprintf(&exp, "%d %d %s\n", i, j, f.exp(s1, u1, 0))
+					}
+				}
+			}
+			exp.WriteString("end\n")
+			key := "in-loops/" + f.name
+			c.Eval(key, true)
+			dir := newSandbox()
+			defer os.RemoveAll(dir)
+			mainPath := filepath.Join(dir, "main.tsh")
+			os.WriteFile(mainPath, []byte(src.String()), 0o644)
+			tr := TranspileFile(mainPath, Bash, 60*time.Second)
+			files := map[string]string{"main.tsh": src.String(), "expected.stdout": exp.String()}
+			if !tr.OK() {
+				c.Violation(key, "library program with loops rejected: "+fmt.Sprint(tr.Err), files)
+				return
+			}
+			run := newSandbox()
+			defer os.RemoveAll(run)
+			rr := RunBash(run, tr.Script, RunOpts{Timeout: 60 * time.Second})
+			if rr.TimedOut {
+				// a correct run of these scripts needs about 65 000 traced steps
+				verdict, r2 := DecideTimeout(tr.Script, 300000, RunOpts{Timeout: 240 * time.Second}, newSandbox)
+				if verdict == "finished" {
+					rr = r2
+				} else if verdict == "inconclusive" {
+					c.Inconclusive("bash watchdog fired twice without a step-limit verdict")
+					return
+				} else {
+					c.Violation(key, "library calls inside the program's loops: the script does not terminate (step limit exceeded)", files)
+					return
+				}
+			}
+			if rr.Stdout != exp.String() || rr.Exit != 0 || rr.Stderr != "" {
+				files["observed.stdout"] = clip(rr.Stdout, 6000)
+				c.Violation(key, "library calls inside the program's loops differ from Go: "+firstDiff(exp.String(), rr.Stdout)+fmt.Sprintf(" (exit %d, stderr %q)", rr.Exit, clip(rr.Stderr, 200)), files)
+			}
+		})
+		c.Extra["loop_scripts"] = len(fs)
+	}
 }
